@@ -72,6 +72,7 @@ func (srv *Server) ListenAndServe() error {
 				// The server was closed while it was starting
 				_ = eg.Wait()
 				srv.releasePendingTransports()
+				srv.closeListeners()
 				return ErrServerClosed
 			}
 			return fmt.Errorf("listen error: %w", err)
@@ -96,9 +97,18 @@ func (srv *Server) ListenAndServe() error {
 
 	if srvCtx.Err() != nil || errors.Is(err, ctx.Err()) {
 		// After a call to Close, the listeners may return their own closing errors
+		srv.closeListeners()
 		return ErrServerClosed
 	}
 	return err
+}
+
+// closeListeners stops the listeners that may have been started after Close has tried to stop them,
+// which happens when the server is closed during its start-up.
+func (srv *Server) closeListeners() {
+	for _, l := range srv.listeners {
+		_ = l.Listener.Close()
+	}
 }
 
 // releasePendingTransports closes the transports that were accepted but not served.
